@@ -13,8 +13,15 @@ INT_ATOMS = {"MININT": -2147483648, "MAXINT": 2147483647}
 ASTRAL = 'a"q\\ \U0001F600 \u00e9'
 
 
+def pyval(x):
+    """Internal (Python) value of an enum member: digit strings stand for ints."""
+    return int(x) if isinstance(x, str) and x.isdigit() else x
+
+
 def pv(v):
     k = v["k"]
+    if k == "enumv":
+        return pyval(v["v"])
     if k == "null":
         return None
     if k == "int":
@@ -56,7 +63,7 @@ def realize(a, resolvers=None, extra=None):
         if k == "scalar":
             reg[n] = ScalarType(n, serialize=lambda v: v, parse=lambda v: v)
         elif k == "enum":
-            reg[n] = EnumType(n, [EnumValue(v["name"], deprecation_reason=("" if v.get("dep") == "EMPTY" else (v.get("dep") or None)), **({"value": v["py"]} if v.get("py") else {}))
+            reg[n] = EnumType(n, [EnumValue(v["name"], deprecation_reason=("" if v.get("dep") == "EMPTY" else (v.get("dep") or None)), **({"value": pyval(v["py"])} if v.get("py") else {}))
                                   for v in t.get("values", [])])
         elif k == "input":
             reg[n] = InputObjectType(n, (lambda t=t: [InputField(f["name"], ref(f["type"]), **({"default_value": pv(f["def"])} if f.get("hasDef") else {}))
